@@ -4,6 +4,8 @@
 //! Every sub-command drives the real code and writes an ndjson trace that the
 //! corresponding *_Trace.tla specification validates with TLC.
 mod bloom;
+mod cache;
+mod sched;
 mod policy;
 mod sketch;
 mod util;
@@ -35,6 +37,7 @@ fn main() {
     let code = match cmd.as_str() {
         "sketch" => sketch::run(&o),
         "bloom" => bloom::run(&o),
+        "cache" => cache::run(&o),
         "policy" => policy::run(&o),
         _ => {
             eprintln!("unknown command {}", cmd);
